@@ -83,13 +83,40 @@ def hand_graphs():
              "tree_model": "tree"},
         ]},
     ]
+    g["hand_birth_death_constant"] = [
+        {"id": "taxa", "type": "Taxa", "taxa": [{"id": l, "type": "Taxon", "attributes": {"date": d}}
+                                                for l, d in zip(labels, [0.0, 0.5, 0.0, 1.0])]},
+        {"id": "bd", "type": "BirthDeathModel",
+         "tree_model": {"id": "tree", "type": "ReparameterizedTimeTreeModel", "newick": "((t0,t1),(t2,t3));",
+                        "taxa": "taxa", "ratios": P("tree.ratios", [0.4, 0.7]),
+                        "root_height": P("tree.root_height", [3.1])},
+         "lambda": P("bd.lambda", [2.1]), "mu": P("bd.mu", [0.9]), "psi": P("bd.psi", [0.6]),
+         "rho": P("bd.rho", [0.3]), "origin": P("bd.origin", [4.5])},
+    ]
     return g
 
 
+C12_GRAPHS = ("tree:4:7:1:ratio", "tree:4:2:0:shift", "treelike:4:5:1:ratio", "gmrf:weights:3",
+              "gmrf:integrated:3", "gmrf:integrated_weights:3", "gmrf:covariate:3", "gmrf:exp_field:3",
+              "misc:scale_mixture", "misc:bridge", "misc:mvn", "misc:dists",
+              "subst:GeneralSymHKY:weibull3_inv_mu:missing", "subst:GeneralNonSym:weibull4_inv:states",
+              "subst:GeneralSymId:invariant:missing", "subst:MG94:weibull2:states", "unrooted:4:1")
+_GRAPH_CACHE = {}
+THOROUGH_ONLY = {"c12/tree:4:2:0:shift"}
+
+
 def all_graphs():
-    out = {name: gs.load_fixture(name) for name in gs.fixtures()}
-    out.update(hand_graphs())
-    return out
+    if not _GRAPH_CACHE:
+        out = {name: gs.load_fixture(name) for name in gs.fixtures()}
+        out.update(hand_graphs())
+        # model graphs written for the gradient check (C12): tree priors incl. the integrated ones,
+        # GMRF variants, scale mixture, Bayesian bridge, multivariate normal, torchtree distributions
+        from mc.props import c12
+
+        for gid in C12_GRAPHS:
+            out["c12/" + gid] = c12.graph(gid)[0]
+        _GRAPH_CACHE.update(out)
+    return _GRAPH_CACHE
 
 
 # -- operations --------------------------------------------------------------------------------
@@ -402,23 +429,22 @@ EXCLUDED = {
     "Hamiltonian": "built inside the HMC operator per step, holds no cache across steps",
     "AttributePattern": "static data", "SitePattern": "static data (covered as part of every likelihood graph)",
     "FlexibleTimeTreeModel": "topology-changing tree, not reachable from the CLI",
-    "PoissonTreeLikelihood": "not covered (no fixture)", "BayesianBridge": "not covered (no fixture)",
-    "GMRFCovariate": "not covered (no fixture)", "DeterministicNormal": "not covered (no fixture)",
-    "MultivariateNormal": "not covered (no fixture)", "GMRFGammaIntegrated": "not covered (no fixture)",
-    "ConstantCoalescentIntegratedModel": "not covered (no fixture)", "BirthDeathModel": "cannot be evaluated at all (C09 finding)",
+    "PoissonTreeLikelihood": "not covered (no fixture)", 
+    "DeterministicNormal": "not covered (no fixture)",
+    
+    
     "PiecewiseExponentialCoalescentGridModel": "cannot be evaluated at all (C08 finding)",
     "KLpq": "no fixture", "KLpqImportance": "no fixture", "SELBO": "no fixture", "VR": "no fixture", "CUBO": "no fixture",
     "EmpiricalSubstitutionModel": "no parameters", "GeneralJC69": "no parameters",
     "LG": "no parameters", "WAG": "no parameters",
     "InvariantSiteModel": "covered through WeibullSiteModel+invariant only",
-    "GeneralSymmetricSubstitutionModel": "no fixture", "GeneralNonSymmetricSubstitutionModel": "no fixture",
 }
 
 
 def run(run):
     tt.boot()
-    graphs = sorted(all_graphs())
     quick = run.tier == "quick"
+    graphs = sorted(g for g in all_graphs() if not (quick and g in THOROUGH_ONLY))
     items = []
     for g in graphs:
         n_ops = len(alphabet(g, all_graphs()[g], False))
